@@ -79,9 +79,15 @@ impl tracing::Subscriber for QuerySubscriber {
     fn record(&self, _: &tracing::span::Id, _: &tracing::span::Record<'_>) {}
     fn record_follows_from(&self, _: &tracing::span::Id, _: &tracing::span::Id) {}
     fn event(&self, e: &tracing::Event<'_>) {
+        // The harness's own bookkeeping (std thread-locals shared by all simulated tasks of this OS
+        // thread) must not be preempted half-way.
+        #[cfg(feature = "shuttle")]
+        let _no_preempt = crate::preempt::NoPreempt::new();
         let mut v = MsgVisitor { hit: false, name_hash: 0 };
         e.record(&mut v);
         if v.hit {
+            #[cfg(feature = "shuttle")]
+            crate::preempt::PROGRESS.fetch_add(1, std::sync::atomic::Ordering::Relaxed);
             let n = EXEC_COUNT.with(|c| {
                 let n = c.get();
                 c.set(n + 1);
@@ -100,6 +106,11 @@ impl tracing::Subscriber for QuerySubscriber {
                 TASKS_WITH_QUERIES.with(|s| {
                     s.borrow_mut().insert(task);
                 });
+            }
+            #[cfg(feature = "shuttle")]
+            {
+                drop(_no_preempt);
+                crate::preempt::on_query_event();
             }
             if n == CANCEL_AT.with(|c| c.get()) {
                 TOKEN.with(|t| {
